@@ -22,7 +22,7 @@ def encodings_for(b, c, tier):
         fe = features.features(b.mod, t, v)
         out.append(('ber', d, v, fe, 'der'))
         try:
-            vs = ber.variants(lambda ch: ber.encode(b.mod, t, v, ch), 1 if tier == 'quick' else 2, cap=200)
+            vs = ber.variants(lambda ch: ber.encode_policy(b.mod, t, v, ch), 1 if tier == 'quick' else 2, cap=200)
             picked = 0
             for enc, ch in vs:
                 labs = [l for _, l, cc in ch.deviations()]
